@@ -867,9 +867,11 @@ class RlRaggedRowSum(Family):
         invB = lambda c_: fold(PS_(r2), PS_(r2) + c_) == DS(r2, B(r2, c_))
         cellp = [r2, r2 + 1, n, z3.IntVal(0), z3.IntVal(1)]
         ctx.prove("lemmaB.base: the fold over the first run is the decoded prefix sum at its end", invB(z3.IntVal(1)),
-                  pool=cellp + [q0, q0 + 1, prow(q0), prow(q0) + 1, B(r2, 1) - B(r2, 0), VL(r2)], live=[c2])
+                  pool=cellp + [q0, q0 + 1, prow(q0), prow(q0) + 1, B(r2, 1) - B(r2, 0), VL(r2)], live=[c2],
+                  without=["B increasing", "run of a position", "DS.step", "fold.step", "S>=0"])
         ctx.prove("lemmaB.step: one more run", z3.Implies(invB(c2), invB(c2 + 1)),
-                  pool=cellp + [c2, c2 + 1, q0, q, q + 1, prow(q), prow(q) + 1, B(r2, c2 + 1) - B(r2, c2), VL(r2)])
+                  pool=cellp + [c2, c2 + 1, q0, q, q + 1, prow(q), prow(q) + 1, B(r2, c2 + 1) - B(r2, c2), VL(r2)],
+                  without=["B increasing", "run of a position", "DS.step", "S>=0"])
         ctx.assume_forall("lemmaB (by induction on the number of runs)", lambda r_, c_: z3.Implies(z3.And(0 <= r_, r_ < n, 1 <= c_, c_ <= VL(r_)),
                           fold(PS_(r_), PS_(r_) + c_) == DS(r_, B(r_, c_))), arity=2)
         r3 = z3.Int("r3")
